@@ -40,7 +40,7 @@ class T(ast.NodeTransformer):
                 setattr(node, fld, self._block(v))
         return node
 
-prog = Program("/repo", inline=False)
+prog = Program("/repo", inline=False, normal=False)
 ov = {}
 for rel, src in prog.files.items():
     tree = T().visit(ast.parse(src))
